@@ -81,7 +81,16 @@ MapDiff(ev) ==
                     \* (canvas units per degree = scale9/1000 * 1389 / 1000; the margin is (units / units-per-degree) degrees)
                     marg == (((20 + 800 \div ch + 15) * 1000000) \div ((((ev.scale9 \div 1000) * 1389) \div 1000) + 1)) * 1000 + 100000
                     y == CanvasY(dlat, (p.lat + clat) \div 2, ev.scale9)
-                IN IF ~Has(p.k) \/ p.det = 0 \/ AbsS(x) > 330 THEN {}
+                    \* the aircraft's own dot (blue): anything in view is drawn - near where the scale puts it (the latitude scale is
+                    \* linearised: judged only within two degrees of the centre and away from the poles, +-2 cells)
+                    dotcol == LabelCol(x, cw)  dotrow == ((400 - y) * (ch - 1)) \div 800 + 5
+                    dot == IF p.det = 1 /\ "blue" \in DOMAIN ev /\ "text" \in DOMAIN ev /\ AbsS(x) <= 390 /\ AbsS(y) <= 390 /\ AbsS(clat) <= 70000000 /\ AbsS(dlat) <= 2000000
+                              /\ ~(\E i \in 1..Len(ev.blue) : AbsS(ev.blue[i][1] - dotcol) <= 2 /\ AbsS(ev.blue[i][2] - dotrow) <= 2)
+                              \* (a label printed over the place hides the dot: then nothing can be said)
+                              /\ ~(\E j \in 1..Len(ev.text) : AbsS(ev.text[j][1] - dotcol) <= 2 /\ AbsS(ev.text[j][2] - dotrow) <= 2)
+                           THEN {"map_aircraft_missing"} ELSE {}
+                IN dot \cup
+                   IF ~Has(p.k) \/ p.det = 0 \/ AbsS(x) > 330 THEN {}
                    ELSE (IF AbsS(Lab(p.k).col - LabelCol(x, cw)) <= 1 THEN {} ELSE {"map_column"})
                         \cup (IF AbsS(y) > 330 \/ AbsS(clat) > 70000000 \/ AbsS(Lab(p.k).row - LabelRow(y, ch)) <= 2 THEN {} ELSE {"map_row"})
                         \cup (IF dlat > 20000 /\ Lab(p.k).row > yc THEN {"map_north_above"} ELSE {})
